@@ -3,6 +3,7 @@
 #include <stdio.h>
 #include <errno.h>
 #include <assert.h>
+#include "verif.h"
 
 #define unlikely(x)     __builtin_expect((x),0)
 #define _weak_          __attribute__((weak))
